@@ -1262,18 +1262,70 @@ func WGWait(st *WGState) {
 
 // ---------------------------------------------------------------- contexts
 
+// vtimerCtx is the context behind verifrt.WithTimeout / WithDeadline: a cancel
+// context whose deadline is a virtual timer. It implements the standard library's
+// AfterFunc hook, so contexts derived from it are cancelled synchronously, with
+// this context's own error (DeadlineExceeded when the timer fired), exactly like
+// children of a real deadline context.
 type vtimerCtx struct {
-	context.Context
-	tm *vtimer
+	parent context.Context
+	tm     *vtimer
+	mu     sync.Mutex
+	done   chan struct{}
+	err    error
+	funcs  map[int]func()
+	nfunc  int
 }
 
-func (c *vtimerCtx) Err() error {
-	if c.tm.fired.Load() {
-		return context.DeadlineExceeded
-	}
-	return c.Context.Err()
-}
+func (c *vtimerCtx) Done() <-chan struct{}       { return c.done }
 func (c *vtimerCtx) Deadline() (time.Time, bool) { return c.tm.deadline, true }
+func (c *vtimerCtx) Value(key any) any           { return c.parent.Value(key) }
+func (c *vtimerCtx) Err() error {
+	c.mu.Lock()
+	defer c.mu.Unlock()
+	return c.err
+}
+
+// AfterFunc: see context.AfterFunc; f runs synchronously in the thread that ends c.
+func (c *vtimerCtx) AfterFunc(f func()) (stop func() bool) {
+	c.mu.Lock()
+	defer c.mu.Unlock()
+	if c.err != nil {
+		go f()
+		return func() bool { return false }
+	}
+	id := c.nfunc
+	c.nfunc++
+	c.funcs[id] = f
+	return func() bool {
+		c.mu.Lock()
+		defer c.mu.Unlock()
+		_, ok := c.funcs[id]
+		delete(c.funcs, id)
+		return ok
+	}
+}
+
+func (c *vtimerCtx) finish(err error) {
+	c.mu.Lock()
+	if c.err != nil {
+		c.mu.Unlock()
+		return
+	}
+	c.err = err
+	close(c.done)
+	fs := c.funcs
+	c.funcs = map[int]func(){}
+	c.mu.Unlock()
+	ids := make([]int, 0, len(fs))
+	for id := range fs {
+		ids = append(ids, id)
+	}
+	sort.Ints(ids)
+	for _, id := range ids {
+		fs[id]()
+	}
+}
 
 func wrapCancel(ctx context.Context, cancel context.CancelFunc) context.CancelFunc {
 	return func() {
@@ -1311,19 +1363,40 @@ func VNow() time.Time {
 	return s.vnow
 }
 
+// deadlineCtx is what WithDeadline hands out: a standard cancel context (so that
+// contexts derived from it - also through value contexts - are registered with it and
+// cancelled synchronously) whose parent is the hidden vtimerCtx root; when the virtual
+// timer fires the root ends with DeadlineExceeded and the standard library propagates
+// exactly that error down the tree.
+type deadlineCtx struct {
+	context.Context
+	deadline time.Time
+}
+
+func (c *deadlineCtx) Deadline() (time.Time, bool) { return c.deadline, true }
+
 func WithDeadline(parent context.Context, d time.Time) (context.Context, context.CancelFunc) {
 	t := cur()
 	if t == nil {
 		return context.WithDeadline(parent, d)
 	}
-	inner, cancel := context.WithCancel(parent)
+	root := &vtimerCtx{parent: parent, done: make(chan struct{}), funcs: map[int]func(){}}
 	s.mu.Lock()
-	tm := &vtimer{deadline: d, cancel: cancel, seq: s.timerSeq}
+	tm := &vtimer{deadline: d, cancel: func() { root.finish(context.DeadlineExceeded) }, seq: s.timerSeq}
+	root.tm = tm
 	s.timerSeq++
 	s.timers = append(s.timers, tm)
-	s.registerCtx(inner, parent)
 	s.mu.Unlock()
-	ctx := &vtimerCtx{Context: inner, tm: tm}
+	inner, icancel := context.WithCancel(root) // registers with root through its AfterFunc hook
+	ctx := &deadlineCtx{Context: inner, deadline: d}
+	s.mu.Lock()
+	s.registerCtx(ctx, parent)
+	s.mu.Unlock()
+	if parent.Done() != nil {
+		// a cancellable parent: follow it (the standard library runs this callback on its own
+		// goroutine; harnesses use background parents for timed contexts)
+		context.AfterFunc(parent, func() { root.finish(parent.Err()) })
+	}
 	return ctx, func() {
 		if t := cur(); t != nil && ctx.Err() == nil {
 			t.park(op{kind: opCancel, c: Case{ctx: ctx}})
@@ -1331,7 +1404,7 @@ func WithDeadline(parent context.Context, d time.Time) (context.Context, context
 		s.mu.Lock()
 		tm.stopped = true
 		s.mu.Unlock()
-		cancel()
+		icancel()
 	}
 }
 
